@@ -1,0 +1,199 @@
+//go:build verif
+
+// Contracts for the GENERATED parsers (the static functions of goCode.templ / goObject.templ), read by
+// /verif/govc. They are applied to the rendered template text (see /verif/govc/render.go for the exact
+// extraction). Comments only; compiled only with -tags verif.
+//
+// Sections: a block under "//@ section <tags>" applies to every rendered variant that carries all the tags
+// (goCode | goObject, packed | unpacked). The goObject variants get the goCode contracts through the renamings
+// below - both Go back ends are verified against the same contract text (property C08).
+package builder
+
+/*@prelude
+// Abstract views of the grammar, its LR(0) automaton and the dense table (uninterpreted; constrained by axioms
+// that are postconditions / hypotheses of the generator side, see DESIGN.md §4).
+func spec_nstates() int
+func spec_nsym() int
+func spec_nT() int
+func spec_nrules() int
+func spec_T(s int, a int) int
+func spec_goto(s int, x int) int
+func spec_item(s int, r int, d int) bool
+func spec_rhs(r int, k int) int
+func spec_lhs(r int) int
+func spec_rhsLen(r int) int
+func spec_ERR() int { return spec_nstates() + 100 }
+func spec_ACC() int { return spec_nstates() + 200 }
+
+// the semantic action of rule r: assumption A-act - it reads and writes only $$ and reads the window $1..$n
+func spec_userAction(r int, dollarDolar *StateSym, Dollar []StateSym)
+*/
+
+//@ rename goObject StateSymStack=c.StackSym StackPointer=c.Stackpos PushStateSym=c.PushStateSym ReduceFunc=c.ReduceFunc
+//@ renamekey goObject Parser=(*Context).Parser PushStateSym=(*Context).PushStateSym PopStateSym=(*Context).PopStateSym ReduceFunc=(*Context).ReduceFunc ParserInit=(*Context).ParserInit
+
+// =============================================================================================
+//@ section goCode
+// (everything in this section is also instantiated for goObject through the renamings)
+
+// Hypotheses about the LR(0) automaton (AP*, see DESIGN §4; leaf functions proved under C09, orchestration bounded)
+// and the table encoding (TC*: postcondition of GenTable).
+//@ axiom SIZES: spec_nstates() >= 1 && spec_nrules() >= 1 && 1 <= spec_nT() && spec_nT() < spec_nsym() &&
+//@     (forall r int :: 0 <= spec_rhsLen(r)) &&
+//@     (forall r int :: 1 <= r && r < spec_nrules() ==> spec_nT() < spec_lhs(r) && spec_lhs(r) < spec_nsym())
+//@ axiom AP0: forall s, r, d, x int :: (spec_item(0, r, d) ==> d == 0) && spec_goto(s, x) != 0 && spec_goto(s, x) < spec_nstates() && (spec_item(s, 0, 0) ==> s == 0)
+//@ axiom AP1: forall s, s2, x, r, d int :: spec_item(s, r, d) && d > 0 && spec_goto(s2, x) == s ==> spec_rhs(r, d-1) == x && spec_item(s2, r, d-1)
+//@ axiom AP2: forall s, r int :: spec_item(s, r, 0) && 1 <= r && r < spec_nrules() ==> spec_goto(s, spec_lhs(r)) >= 1
+//@ axiom TC: forall s, a int :: 0 <= s && s < spec_nstates() && 0 <= a && a < spec_nsym() ==>
+//@     spec_T(s, a) == spec_ERR() || (spec_T(s, a) == spec_ACC() && spec_item(s, 0, 1) && a == 1) ||
+//@     (0 < spec_T(s, a) && spec_T(s, a) < spec_nstates() && spec_goto(s, a) == spec_T(s, a)) ||
+//@     (spec_T(s, a) < 0 && 1 <= -spec_T(s, a) && -spec_T(s, a) < spec_nrules() && spec_item(s, -spec_T(s, a), spec_rhsLen(-spec_T(s, a))) && a <= spec_nT())
+//@ axiom TCgoto: forall s, x int :: 0 <= s && s < spec_nstates() && spec_nT() < x && x < spec_nsym() && spec_goto(s, x) >= 1 ==> spec_T(s, x) == spec_goto(s, x)
+//@ axiom TC0: forall s int :: 0 <= s && s < spec_nstates() ==> spec_T(s, 0) == spec_ERR()
+
+// stack invariant: bottom entry is state 0; every other entry was entered by the automaton's goto on its symbol
+//@ def INV(st []StateSym, sp int) = 1 <= sp && sp <= len(st) && st[0].Yystate == 0 &&
+//@     (forall k int :: 1 <= k && k < sp ==> 0 < st[k].Yystate && st[k].Yystate < spec_nstates() && spec_goto(st[k-1].Yystate, st[k].YySymIndex) == st[k].Yystate)
+
+// Lemma L: an item with the dot after d symbols on top of a valid stack has those d symbols below it
+//@ lemma L_stack(st []StateSym, sp int)
+//@ props C01 C06 C07 C08 C15 C17
+//@ induction d
+//@ use AP0, AP1
+//@ requires INV(st, sp)
+//@ ensures forall k, r, d int :: 0 <= d && 0 <= k && k < sp && spec_item(st[k].Yystate, r, d) ==>
+//@     k >= d && spec_item(st[k-d].Yystate, r, 0) && (forall j int :: 0 <= j && j < d ==> st[k-d+1+j].YySymIndex == spec_rhs(r, j))
+
+//@ func PushStateSym
+//@ props C01 C06 C07 C08 C15 C17
+//@ requires state != nil && 0 <= StackPointer && StackPointer <= len(StateSymStack)
+//@ ensures StackPointer == old(StackPointer) + 1 && StackPointer <= len(StateSymStack) && len(StateSymStack) >= old(len(StateSymStack))
+//@ ensures [C01,C07] StateSymStack[old(StackPointer)] == old(*state)
+//@ ensures [C01,C15] forall k int :: 0 <= k && k < old(StackPointer) ==> StateSymStack[k] == old(StateSymStack[k])
+//@ modifies StateSymStack, StackPointer
+
+//@ func PopStateSym
+//@ props C01 C07 C08
+//@ ensures StackPointer == old(StackPointer) - num
+//@ modifies StackPointer
+
+//@ func ParserInit
+//@ props C15 C08
+//@ requires len(StateSymStack) == 0 || (StateSymStack[0].Yystate == 0 && StateSymStack[0].YySymIndex == 1 && StateSymStack[0].ValType == ValType{})
+//@ ensures [C15] StackPointer == 1 && len(StateSymStack) >= 1
+//@ ensures [C15] StateSymStack[0].Yystate == 0 && StateSymStack[0].YySymIndex == 1 && StateSymStack[0].ValType == ValType{}
+//@ modifies StateSymStack, StackPointer
+
+//@ func ReduceFunc
+//@ props C01 C07 C08 C15
+//@ results dd
+//@ use SIZES
+//@ requires 1 <= reduceIndex && reduceIndex < spec_nrules()
+//@ requires 0 <= StackPointer - 1 - spec_rhsLen(reduceIndex) && StackPointer <= len(StateSymStack)
+//@ ensures [C01] dd != nil && fresh(dd) && dd.YySymIndex == spec_lhs(reduceIndex)
+//@ ensures [C01,C07] StackPointer == old(StackPointer) - spec_rhsLen(reduceIndex) && StateSymStack == old(StateSymStack)
+// $$ starts as a fresh zero value and $0..$n is exactly the window of the top n+1 stack entries (C07, C15)
+//@ before_stmt [C07,C15] "spec_userAction(" dollarDolar != nil && fresh(dollarDolar) && dollarDolar.ValType == ValType{} &&
+//@     len(Dollar) == spec_rhsLen(reduceIndex) + 1 &&
+//@     (forall n int :: 0 <= n && n <= spec_rhsLen(reduceIndex) ==> Dollar[n] == StateSymStack[StackPointer-1-spec_rhsLen(reduceIndex)+n])
+//@ modifies StackPointer
+//@ allocates StateSym
+
+//@ func spec_userAction
+//@ trusted assumption A-act: a semantic action reads $1..$n and reads/writes $$ only
+//@ props C01 C07 C08 C15
+//@ requires dollarDolar != nil
+//@ modifies dollarDolar.ValType
+
+//@ func translate
+//@ trusted derived from the emits clauses of buildTranslate: terminals map to their symbol id, everything else to 0
+//@ props C01 C06 C08
+//@ ensures 0 <= result && result <= spec_nT()
+//@ modifies nothing
+
+//@ func GetToken
+//@ trusted user code (epilogue): may write the token value and the position it is given, nothing else (A-act)
+//@ params input, val, pos
+//@ props C01 C06 C08
+//@ requires val != nil && pos != nil
+//@ modifies *val, *pos
+
+//@ func TraceTranslate
+//@ trusted generated lookup table (symbol id -> name), checked under C17
+//@ props C01 C06 C17
+//@ modifies nothing
+
+//@ func TraceReduce
+//@ trusted generated printing switch, checked under C17
+//@ props C01 C06 C17
+//@ modifies nothing
+
+//@ func TraceShift
+//@ props C01 C06 C17
+//@ requires s != nil
+//@ modifies nothing
+
+//@ func fetchLookAhead
+//@ props C01 C06 C08
+//@ requires val != nil && pos != nil
+//@ ensures 0 <= result && result <= spec_nT()
+//@ modifies *val, *pos
+
+//@ func Parser
+//@ props C01 C06 C07 C08 C15
+//@ results v
+//@ use SIZES, AP0, AP1, AP2, TC, TCgoto, TC0
+//@ requires INV(StateSymStack, StackPointer) && tablesOK()
+//@ may_panic "Grammar error"
+// accepted only in the accepting configuration: stack = [0, goto(0,S)], lookahead = end marker; the value returned is S's value
+//@ ensures [C01,C06] v != nil ==> StackPointer == 2 && spec_item(StateSymStack[1].Yystate, 0, 1)
+//@ ensures [C07] v != nil ==> *v == StateSymStack[1].ValType
+//@ loop 0: invariant INV(StateSymStack, StackPointer)
+//@ loop 0: invariant 0 <= lookAhead && lookAhead <= spec_nT()
+//@ loop 0: use L_stack(StateSymStack, StackPointer)
+// the action consulted is the table entry of (top state, lookahead) (C01, C05, C08)
+//@ after_stmt [C01,C08] "a := s.Action(lookAhead)" a == spec_T(StateSymStack[StackPointer-1].Yystate, lookAhead)
+// a shift happens only on a cell that is a transition of the automaton - never on an error entry (C06)
+//@ before_stmt [C06,C01] "PushStateSym(&StateSym{" a != ERROR_ACTION && a != ACCEPT_ACTION && 0 < a && a < spec_nstates() && spec_goto(StateSymStack[StackPointer-1].Yystate, lookAhead) == a
+// a reduction by rule r happens only when the top |rhs(r)| stack symbols are rhs(r) (C01) - these are $1..$n (C07)
+//@ before_stmt [C01,C07] "SymTy := ReduceFunc(reduceIndex)" 1 <= reduceIndex && reduceIndex < spec_nrules() && spec_rhsLen(reduceIndex) <= StackPointer - 1 &&
+//@     (forall n int :: 1 <= n && n <= spec_rhsLen(reduceIndex) ==> StateSymStack[StackPointer-1-spec_rhsLen(reduceIndex)+n].YySymIndex == spec_rhs(reduceIndex, n-1))
+// the entry pushed after a reduction is (goto(top, lhs r), lhs r, $$) (C01, C07)
+//@ before_stmt [C01] "PushStateSym(SymTy)" SymTy.YySymIndex == spec_lhs(reduceIndex) && SymTy.Yystate == spec_goto(StateSymStack[StackPointer-1].Yystate, spec_lhs(reduceIndex)) &&
+//@     0 < SymTy.Yystate && SymTy.Yystate < spec_nstates()
+
+// =============================================================================================
+//@ section goCode unpacked
+
+//@ def tablesOK() = ERROR_ACTION == spec_ERR() && ACCEPT_ACTION == spec_ACC() && len(StateActionArray) == spec_nstates() &&
+//@     (forall s int :: 0 <= s && s < spec_nstates() ==> len(StateActionArray[s]) == spec_nsym()) &&
+//@     (forall s, a int :: 0 <= s && s < spec_nstates() && 0 <= a && a < spec_nsym() ==> StateActionArray[s][a] == spec_T(s, a))
+
+//@ func (*StateSym).Action
+//@ props C01 C05 C06 C08
+//@ requires s != nil && 0 <= s.Yystate && s.Yystate < spec_nstates() && 0 <= a && a < spec_nsym() && tablesOK()
+//@ ensures [C01,C05,C08] result == spec_T(s.Yystate, a)
+//@ modifies nothing
+
+// =============================================================================================
+//@ section goCode packed
+
+// packed arrays: TrySplitTable's postcondition (lookup through the packed arrays == dense table), plus the two
+// facts the generated shortcut "offset+a < 0 => ERROR" needs: entries in front of the vector are defaults
+// (PackTable's post) and hypothesis INV-R (every state has a non-default action entry, so goto lookups never
+// fall in front of the vector).
+//@ def lookupT(s int, a int) = ite(0 <= StatePackOffset[s]+a && StatePackOffset[s]+a < len(StackPackCheck) && StackPackCheck[StatePackOffset[s]+a] == s,
+//@     StatePackAction[StatePackOffset[s]+a], ite(a > NTERMINALS, StackPackGotoDef[a-NTERMINALS-1], StackPackActDef[s]))
+//@ def tablesOK() = ERROR_ACTION == spec_ERR() && ACCEPT_ACTION == spec_ACC() && NTERMINALS == spec_nT() &&
+//@     len(StatePackOffset) == spec_nstates() && len(StackPackActDef) == spec_nstates() && len(StackPackGotoDef) == spec_nsym() - spec_nT() - 1 &&
+//@     len(StatePackAction) == len(StackPackCheck) &&
+//@     (forall s, a int :: 0 <= s && s < spec_nstates() && 0 <= a && a < spec_nsym() ==> lookupT(s, a) == spec_T(s, a)) &&
+//@     (forall s, a int :: 0 <= s && s < spec_nstates() && 0 <= a && a <= spec_nT() && StatePackOffset[s]+a < 0 ==> spec_T(s, a) == StackPackActDef[s]) &&
+//@     (forall s int :: 0 <= s && s < spec_nstates() ==> StatePackOffset[s] + spec_nT() >= 0)
+
+//@ func (*StateSym).Action
+//@ props C01 C05 C06 C08
+//@ use TC0, SIZES
+//@ requires s != nil && 0 <= s.Yystate && s.Yystate < spec_nstates() && 0 <= a && a < spec_nsym() && tablesOK()
+//@ ensures [C01,C05,C08] result == spec_T(s.Yystate, a)
+//@ modifies nothing
